@@ -29,6 +29,8 @@ def work(args):
         rt, lim = cfg.resend_timeout, cfg.resend_limit
         dead = se.dead_at
         for name, t0, t1, outcome in se.ops:
+            if t1 is None and kill is not None and kill[1] == "break" and se.errors and (name.endswith("@c") or name in ("disconnect", "async-with-exit")):
+                continue        # the stream broke under the client: its whole `async with` block was ended by the transport's exception (ops cancelled at once)
             if t1 is None:
                 bad.append(("hang", "%s started at %.3f never returned (link died at %s)" % (name, t0, dead)))
                 continue
@@ -42,10 +44,14 @@ def work(args):
             want = (lim + 1) * rt
             if conn[3] != "failed" or conn[2] is None or abs(conn[2] - want) > 1e-3:
                 bad.append(("connect-bound", "connect to a silent peer: outcome %s at %s, expected failure at (resend_limit+1)*resend_timeout=%.3f" % (conn[3], conn[2], want)))
+        if kill is not None and kill[1] == "break" and se.errors and not all(e[0] == "client" and ("ClosedResourceError" in e[1] or "BrokenResourceError" in e[1] or "EndOfStream" in e[1]) for e in se.errors):
+            bad.append(("break-error", "after the stream broke the client's block ended with something else than the stream's own error: %r" % (se.errors[:2],)))
         if conn[3] == "ok":
             late = [o for o in se.ops if o[0].startswith("send@") and o is not None and o[1] >= (se.ops[-1][1] if False else 0)]
             # the two 'late' sends are the last send@c / send@s of the run
             for side in "cs":
+                if side == "c" and kill is not None and kill[1] == "break" and se.errors:
+                    continue        # the client's block was ended by the transport's exception before its late send
                 sends = [o for o in se.ops if o[0] == "send@" + side]
                 if sends and sends[-1][3] not in ("closed",) and se.handler_started:
                     bad.append(("closed-send", "send on the ended connection at %s returned %r instead of raising the closed-connection error" % (side, sends[-1][3])))
@@ -164,8 +170,8 @@ def work_two(args):
 
 def run(ctx):
     quick = ctx.tier == "quick"
-    ctx.rule = ("crash-point enumeration: reference session per configuration (encoding x credentials x resend_limit), then for every k "
-                "the link dies after the k-th datagram in mode both / client->server / server->client; every blocking call (connect, recv "
+    ctx.rule = ("crash-point enumeration: reference session per configuration (encoding v0 / v1 / lite x credentials x resend_limit), then for every k "
+                "the link dies after the k-th datagram (lite: the byte stream becomes a black hole after the k-th write, or breaks at it) in mode both / client->server / server->client; every blocking call (connect, recv "
                 "on both sides, recv_unreliable, send, disconnect, async-with exit, the server handler) is outstanding in some run; oracle: "
                 "each returns/raises within silence + ping_timeout + (resend_limit+1)*resend_timeout, connect to a silent peer fails at "
                 "exactly (resend_limit+1)*resend_timeout, late sends raise closed, server table empties, the address reconnects; each run is "
@@ -186,6 +192,12 @@ def run(ctx):
     # send is still in progress when the connection ends
     cfgs.append(dict(base, version=1, credentials=False, resend_limit=2, rmc=True))
     cfgs.append(dict(base, version=1, credentials=False, resend_limit=1, rmc="slow"))
+    # the third encoding: lite over a byte stream that becomes a black hole (both / either direction) after the k-th write, or breaks at it
+    ncore = len(cfgs)
+    cfgs.append(dict(base, transport="lite", version=1, credentials=False, resend_limit=2))
+    if not quick:
+        cfgs += [dict(base, transport="lite", version=1, credentials=True, resend_limit=1), dict(base, transport="lite", version=1, credentials=False, resend_limit=0),
+                 dict(base, transport="lite", version=1, credentials=False, resend_limit=4)]
     jobs = []
     n = 0
     for ci, cfgd in enumerate(cfgs):
@@ -196,7 +208,7 @@ def run(ctx):
         if quick and ci > 0:
             ks = sorted(set(ctx.rng.sample(range(0, N + 1), 8)) | {0, 1, 4})
         for k in ks:
-            for mode in ("both", "c2s", "s2c"):
+            for mode in ("both", "c2s", "s2c") + (("break",) if cfgd.get("transport") == "lite" else ()):
                 jobs.append((n, cfgd, 1, (k, mode))); n += 1
     # other ways a connection ends: a forceful local close() while other tasks are blocked on the connection (either side), and a
     # keyed server refusing the login — followed by a new connection from the same address
@@ -227,7 +239,7 @@ def run(ctx):
                 ctx.corr_break("c02-session-harness", "session crashed in the harness", {"traceback": err, "cfg": cfgd, "kill": kill})
                 continue
             for key, what in bad:
-                ctx.violation("c02:%s:v%d" % (key, cfgd["version"]), what, {"cfg": cfgd, "kill": kill, "seed": seed,
+                ctx.violation("c02:%s:%s" % (key, "lite" if cfgd.get("transport") == "lite" else "v%d" % cfgd["version"]), what, {"cfg": cfgd, "kill": kill, "seed": seed,
                               "ops": [[o[0], o[1], o[2], o[3]] for o in se.ops] if se else None,
                               "how": "harness/corr_C02.py work((0, cfg, seed, kill)) / harness/crash_session.run(cfg, seed, kill); kill = ('special', s): run_special(cfg, seed, s); ('two-clients', how): run_two_clients(cfg, seed, how)"})
             r = l1_corr.compare(drv, se, "x") if se is not None and cfgd.get("rmc") != "slow" and not getattr(se, "skip_l1", False) else {"ok": True, "diffs": [], "skipped": True}
@@ -237,7 +249,7 @@ def run(ctx):
                     first = {"cfg": cfgd, "kill": kill, "diff": r["diffs"][0]}
             ctx.traces_validated += 0 if r.get("skipped") else 1
             ctx.case(key=(str(cfgd), str(kill)), nontrivial=True,
-                     tag="v%d%s:%s:connect-%s" % (cfgd["version"], ":rmc" if cfgd.get("rmc") else "", kill[1] if kill else "reference", stats.get("connect")),
+                     tag="%s%s:%s:connect-%s" % ("lite" if cfgd.get("transport") == "lite" else "v%d" % cfgd["version"], ":rmc" if cfgd.get("rmc") else "", kill[1] if kill else "reference", stats.get("connect")),
                      sample={"cfg": cfgd, "kill": kill, "ops": [[o[0], round(o[1], 3), None if o[2] is None else round(o[2], 3), o[3]] for o in se.ops][:12],
                              "model_lines": r.get("lines")} if idx % 97 == 0 else None)
     ctx.exhaustive = not quick
